@@ -118,7 +118,7 @@ RetR(fail, lx) == [fail |-> fail, lx |-> lx]
 Plus(a, b) == IF a = "" THEN b ELSE IF b = "" THEN a ELSE a \o "+" \o b
 
 \* judge request i of a read call; returns clause ("" = ok)
-JudgeRead(lx, it, tg, anyInvalid, connsize, alone) ==
+JudgeRead2(lx, it, tg, anyInvalid, connsize, alone, alone0) ==       \* alone0: the call has this request only
     LET e == ExpectRead(lx, it)
         big == e.len + 64 >= connsize
         fsv == IF e.cls = "valid" THEN SvcFor(lx, e.key, e.off) ELSE <<>>
@@ -136,11 +136,13 @@ JudgeRead(lx, it, tg, anyInvalid, connsize, alone) ==
          ELSE IF ~IsS(tg.error) \/ Len(tg.error.s) = 0 THEN "C13:empty-error+C03:empty-error"
          ELSE IF ~NamesStatus(lx, tg.error, fsv[Len(fsv)].status) THEN "C13:status-not-named" ELSE "")
     ELSE IF someFailed THEN ""
-    ELSE IF tg.truthy = 0 THEN Plus(Plus("C01:falsy-for-existing", IF anyInvalid THEN "C03:isolation" ELSE ""), Plus(IF big THEN "C04:readable" ELSE "", "C13:failure-on-success"))
+    ELSE IF tg.truthy = 0 THEN Plus(Plus("C01:falsy-for-existing", IF anyInvalid THEN "C03:isolation" ELSE IF ~alone0 THEN "C03:valid-failed-in-company" ELSE ""), Plus(IF big THEN "C04:readable" ELSE "", "C13:failure-on-success"))
     ELSE IF ~TermEq(tg.value, e.val) THEN Plus("C01:value", IF anyInvalid THEN "C03:isolation" ELSE "")
     ELSE IF tg.type # MkS(e.typ) THEN "C01:type"
     ELSE IF tg.tag # MkS(it.base) THEN Plus("C01:name", "C03:name")
     ELSE ""
+
+JudgeRead(lx, it, tg, anyInvalid, connsize, alone) == JudgeRead2(lx, it, tg, anyInvalid, connsize, alone, TRUE)
 
 FirstBad(cs) == LET bad == {i \in 1..Len(cs) : cs[i] # ""} IN IF bad = {} THEN "" ELSE cs[Min(bad)]
 
@@ -154,7 +156,7 @@ ReadRet(lx, call, ev, connsize) ==
     ELSE LET anyInv == n <= 400 /\ \E i \in 1..n : ExpectRead(lx, items[i]).cls = "invalid"
              exps == IF Len(lx.svclog) = 0 THEN <<>> ELSE [i \in 1..n |-> ExpectRead(lx, items[i])]
              alone(i) == Len(lx.svclog) = 0 \/ Cardinality({j \in 1..n : exps[j].key = exps[i].key}) = 1
-             cs == [i \in 1..n |-> JudgeRead(lx, items[i], tgs[i], anyInv, connsize, alone(i))]
+             cs == [i \in 1..n |-> JudgeRead2(lx, items[i], tgs[i], anyInv, connsize, alone(i), n = 1)]
          IN RetR(FirstBad(cs), lx)
 
 \* expected memory: the pre-call image patched, in request order, by the effects of the requests reported truthy
@@ -164,7 +166,7 @@ ApplyTruthy(lx, items, tgs, i) ==
     ELSE LET w == ExpectWrite(lx, items[i]) IN
          ApplyTruthy(IF tgs[i].truthy = 1 /\ w.cls = "valid" THEN ApplyW(lx, w) ELSE lx, items, tgs, i + 1)
 
-JudgeWrite(lx, it, tg, anyInvalid, connsize, alone) ==
+JudgeWrite(lx, it, tg, anyInvalid, connsize, alone, alone0) ==
     LET w == ExpectWrite(lx, it)
         failedHere == {k \in 1..Len(lx.svclog) : lx.svclog[k].key = w.key}
         okHere == {sl \in lx.okslices : sl[1] = w.key}
@@ -178,7 +180,7 @@ JudgeWrite(lx, it, tg, anyInvalid, connsize, alone) ==
          ELSE IF ~IsS(tg.error) \/ Len(tg.error.s) = 0 THEN "C13:empty-error+C03:empty-error"
          ELSE IF ~NamesStatus(lx, tg.error, lx.svclog[Max(failedHere)].status) THEN "C13:status-not-named" ELSE "")
     ELSE IF failedHere # {} THEN ""
-    ELSE IF tg.truthy = 0 THEN Plus(Plus("C02:valid-write-failed", IF anyInvalid THEN "C03:isolation" ELSE ""), IF Len(w.bytes) + 64 >= connsize THEN "C04:writable" ELSE "")
+    ELSE IF tg.truthy = 0 THEN Plus(Plus("C02:valid-write-failed", IF anyInvalid THEN "C03:isolation" ELSE IF ~alone0 THEN "C03:valid-failed-in-company" ELSE ""), IF Len(w.bytes) + 64 >= connsize THEN "C04:writable" ELSE "")
     ELSE IF okHere = {} THEN "C02:not-applied"
     ELSE IF tg.tag # MkS(it.base) THEN "C03:name"
     ELSE ""
@@ -206,7 +208,7 @@ WriteRet(lx, call, ev, connsize) ==
     ELSE LET pre == [lx EXCEPT !.mem = lx.pre]
              anyInv == \E i \in 1..n : ExpectWrite(pre, items[i]).cls = "invalid"
              keys == [i \in 1..n |-> ExpectWrite(pre, items[i]).key]
-             cs == [i \in 1..n |-> JudgeWrite(pre, items[i], tgs[i], anyInv, connsize, Cardinality({j \in 1..n : keys[j] = keys[i]}) = 1)]
+             cs == [i \in 1..n |-> JudgeWrite(pre, items[i], tgs[i], anyInv, connsize, Cardinality({j \in 1..n : keys[j] = keys[i]}) = 1, n = 1)]
              c1 == FirstBad(cs)
              anyUnspec == \E i \in 1..n : ExpectWrite(pre, items[i]).cls = "unspec"
              expected == ApplyTruthy(pre, items, tgs, 1)
@@ -224,8 +226,9 @@ StructName == <<115, 116, 114, 117, 99, 116>>
 ColonIn(n) == \E i \in 1..Len(n) : n[i] = 58
 UserVisible(s) == s.kind = "tag" /\ s.sysflag = 0
 ScopedName(s) == IF s.scope = <<>> THEN s.name ELSE ProgPrefix \o s.scope \o <<46>> \o s.name
-AccessText(lx, code) == LET hits == {i \in 1..Len(lx.access) : lx.access[i][1] = code} IN
-                        IF hits = {} THEN <<>> ELSE lx.access[CHOOSE i \in hits : TRUE][2]
+\* External Access attribute of the Symbol object (Logix 5000 Data Access): 0 Read/Write, 2 Read Only, 3 None (1 reserved: not
+\* compared).  Stated here, not taken from the library's table.
+AccessText(lx, code) == CASE code = 0 -> <<82, 101, 97, 100, 47, 87, 114, 105, 116, 101>> [] code = 2 -> <<82, 101, 97, 100, 32, 79, 110, 108, 121>> [] code = 3 -> <<78, 111, 110, 101>> [] OTHER -> <<>>
 ExpTag(lx, s) ==
     [name |-> ScopedName(s), dim |-> Len(Dims(s.dims)), dims |-> s.dims, alias |-> IF BitOf(s.sc[4], 2) = 1 THEN 0 ELSE 1,
      iid |-> s.iid, dtname |-> TypeName(lx.P, s.t), ttype |-> IF s.t.k = "atomic" THEN "atomic" ELSE "struct",
